@@ -461,7 +461,7 @@ def make_driver_class():
             due = max(now + d, self._last_due)
             self._last_due = due
             if due <= now and not self._pending:
-                self.in_queue.put(CRTPPacket(h, bytearray(payload)))
+                self._put(h, payload)
                 return
             self._pending.append((due, h, bytes(payload)))
             link = self
@@ -471,8 +471,16 @@ def make_driver_class():
                 while link._pending and link._pending[0][0] <= s.now + 1e-12:
                     _, h2, p2 = link._pending.pop(0)
                     if not link.closed:
-                        link.in_queue.put(CRTPPacket(h2, bytearray(p2)))
+                        link._put(h2, p2)
             s.spawn(None, body, name='delayed-reply')
+
+        def _put(self, h, payload):
+            """Hand a downlink packet to the host side.  The append is atomic with the device step that produced the
+            packet (the device is sequential); the scheduling point comes after it."""
+            self.in_queue.queue.append(CRTPPacket(h, bytearray(payload)))
+            s = vsched.S
+            if s is not None and s.owns_current_thread() and not s.killing:
+                s.point('link.rx')
 
         def deliver_later(self, h, payload, d):
             self._enqueue(h, payload, d)
